@@ -146,6 +146,9 @@ def main():
                 alias = False
                 if j and r.get('use_names'):
                     tg = [e[1] for e in g.names.values() if e[0] == 'ref']
+                    # (a name for the one-cell range A4:A4 is a second name of A4 as well)
+                    tg += [G.cid(e[1], e[2], e[3], e[4]) for e in g.names.values()
+                           if e[0] == 'rng' and (e[3], e[4]) == (e[5], e[6])]
                     alias = any(tg.count(i) > 1 for i in ovs[r['seed']][j - 1]['ov'])
                 if j and r.get('use_names') and L.name_override_hazard(g, ovs[r['seed']][j - 1]):
                     hazard = True
